@@ -100,6 +100,82 @@ func scanMutants(base string, rng *rand.Rand, n int, depth int) []string {
 	return out
 }
 
+// tokenMutants changes a text at token granularity: cut after a token, drop / repeat / swap tokens, or put
+// another token (keywords of the template directives included) in a token's place
+func tokenMutants(base string, rng *rand.Rand, n int, all bool) []string {
+	src := []byte(base)
+	var toks hclsyntax.Tokens
+	if p, _ := guarded(func() { toks, _ = hclsyntax.LexConfig(src, "m.hcl", hcl.Pos{Line: 1, Column: 1}) }, 5*time.Second); p != "" || len(toks) < 2 {
+		return nil
+	}
+	toks = toks[:len(toks)-1] // without the end-of-file token
+	piece := func(i int) string { // token i with the blanks before it
+		st := 0
+		if i > 0 {
+			st = toks[i-1].Range.End.Byte
+		}
+		e := toks[i].Range.End.Byte
+		if st < 0 || e > len(src) || st > e {
+			return ""
+		}
+		return string(src[st:e])
+	}
+	pool := []string{"for", "in", "if", "else", "endif", "endfor", "x", "1", ",", ":", "=>", "...", "?", "(", ")", "[", "]", "{", "}", "~}", "${", "%{", "\"", "=", ".", "*", "null", "<<EOT\n", "\n", "-", "!"}
+	build := func(f func(i int) string) string {
+		var sb strings.Builder
+		for i := range toks {
+			sb.WriteString(f(i))
+		}
+		return sb.String()
+	}
+	out := []string{}
+	if all { // every cut at a token boundary
+		for k := 1; k < len(toks); k++ {
+			out = append(out, string(src[:toks[k-1].Range.End.Byte]))
+		}
+	}
+	for j := 0; j < n; j++ {
+		k := rng.Intn(len(toks))
+		switch rng.Intn(5) {
+		case 0:
+			out = append(out, string(src[:toks[k].Range.End.Byte]))
+		case 1:
+			out = append(out, build(func(i int) string {
+				if i == k {
+					return ""
+				}
+				return piece(i)
+			}))
+		case 2:
+			out = append(out, build(func(i int) string {
+				if i == k {
+					return piece(i) + piece(i)
+				}
+				return piece(i)
+			}))
+		case 3:
+			r := pool[rng.Intn(len(pool))]
+			out = append(out, build(func(i int) string {
+				if i == k {
+					return " " + r
+				}
+				return piece(i)
+			}))
+		case 4:
+			out = append(out, build(func(i int) string {
+				if i == k && k+1 < len(toks) {
+					return piece(k + 1)
+				}
+				if i == k+1 {
+					return piece(k)
+				}
+				return piece(i)
+			}))
+		}
+	}
+	return out
+}
+
 func gapClass(b []byte) string {
 	if len(b) == 0 {
 		return "none"
@@ -115,6 +191,7 @@ func gapClass(b []byte) string {
 func lexRecord(toks hclsyntax.Tokens, src []byte) []any {
 	out := []any{}
 	prev := 0
+	bom := bytes.HasPrefix(src, []byte("\xef\xbb\xbf"))
 	valid := utf8.Valid(src) // line numbers are only judged on valid UTF-8 (a broken sequence can swallow a newline into one token)
 	for _, t := range toks {
 		s, e := t.Range.Start.Byte, t.Range.End.Byte
@@ -123,6 +200,9 @@ func lexRecord(toks hclsyntax.Tokens, src []byte) []any {
 		line := false
 		if s >= prev && s <= len(src) && e >= s && e <= len(src) {
 			gap = gapClass(src[prev:s])
+			if bom && prev == 0 && s >= 3 && gapClass(src[3:s]) != "other" {
+				gap = "bom" // a byte order mark at the very start is not part of any token
+			}
 			okb = bytes.Equal(t.Bytes, src[s:e])
 			line = t.Range.Start.Line == 1+bytes.Count(src[:s], []byte("\n")) && t.Range.End.Line == 1+bytes.Count(src[:e], []byte("\n")) &&
 				t.Range.Start.Column >= 1 && t.Range.End.Column >= 1
@@ -347,6 +427,12 @@ func RunScan(behs [][]Step, tr *Trace, env Env, sum *Summary) {
 			base = scanTextOf(beh, rng)
 		}
 		texts := append([]string{base}, scanMutants(base, rng, nmut, depth)...)
+		if kind != "json" {
+			texts = append(texts, tokenMutants(base, rng, nmut, env.Mode == "thorough" && kind == "expr")...)
+			if rng.Intn(4) == 0 {
+				texts = append(texts, "\xef\xbb\xbf"+base)
+			}
+		}
 		for ti, text := range texts {
 			src := []byte(text)
 			ev := map[string]any{"ev": "Text", "len": len(src), "kind": kind, "calls": map[string]any{}}
